@@ -402,15 +402,15 @@ func (ev *evaluator) apply(name string, args []V) (V, *Fault) {
 		if !ok {
 			return nil, typeFault(name, 0, args[0], "string")
 		}
-		for i := 0; i < len(s); i++ {
-			if s[i] >= 0x80 {
-				return nil, unspec("%s outside ASCII", name)
+		for _, r := range s {
+			if !CaseDecided(r) {
+				return nil, unspec("%s of a character whose case conversion is not the same in every Unicode-aware implementation", name)
 			}
 		}
 		if name == "lower" {
-			return strings.ToLower(s), nil
+			return strings.Map(unicode.ToLower, s), nil
 		}
-		return strings.ToUpper(s), nil
+		return strings.Map(unicode.ToUpper, s), nil
 	case "map":
 		e := args[0].(*Expref)
 		a, ok := args[1].(*Arr)
@@ -1059,4 +1059,37 @@ func partialKeyFault(fn string, ks []V) *Fault {
 		return nil
 	}
 	return f
+}
+
+// caseRanges: scripts and symbols whose case pairs are one-to-one, context-free and as old as
+// Unicode's case tables, so that every Unicode-aware lower/upper agrees on them.
+var caseRanges = [][2]rune{
+	{0x00C0, 0x00D6}, {0x00D8, 0x00DE}, {0x00E0, 0x00F6}, {0x00F8, 0x00FF}, // Latin-1 letters (not the sharp s, not the micro sign)
+	{0x0100, 0x012F}, {0x0132, 0x0148}, {0x014A, 0x017F}, // Latin Extended-A without the dotted/dotless i and the apostrophe-n
+	{0x0391, 0x03A1}, {0x03A4, 0x03A9}, {0x03B1, 0x03C1}, {0x03C4, 0x03C9}, // plain Greek letters without any sigma
+	{0x0400, 0x045F},                                     // Cyrillic
+	{0x0531, 0x0556}, {0x0561, 0x0586}, // Armenian (not the ech-yiwn ligature)
+	{0x212A, 0x212B}, {0x2126, 0x2126}, // Kelvin, Angstrom, Ohm signs
+	{0x2160, 0x217F},                   // Roman numerals
+	{0x24B6, 0x24E9},                   // circled Latin letters
+	{0xFF21, 0xFF3A}, {0xFF41, 0xFF5A}, // fullwidth Latin letters
+	{0x10400, 0x1044F}, // Deseret
+}
+
+// CaseDecided: the model decides lower/upper for ASCII, for the ranges above and for characters
+// that have no case at all; everything else (special casing, context-dependent letters, title-case
+// digraphs, scripts that gained case recently) is left open.
+func CaseDecided(r rune) bool {
+	if r < 0x80 {
+		return true
+	}
+	if r == utf8.RuneError {
+		return false
+	}
+	for _, cr := range caseRanges {
+		if r >= cr[0] && r <= cr[1] {
+			return true
+		}
+	}
+	return unicode.ToLower(r) == r && unicode.ToUpper(r) == r && unicode.ToTitle(r) == r && !unicode.Is(unicode.Other_Lowercase, r) && !unicode.Is(unicode.Other_Uppercase, r) && r != 0x0345 && !(r >= 0x1F00 && r <= 0x1FFF)
 }
